@@ -34,7 +34,11 @@ def pendingL (s : St) : List LogEntry :=
 
 theorem setVarByName_ilog (s : St) (n v : Bytes) : (s.setVarByName n v).ilog = s.ilog := by
   unfold St.setVarByName
-  split <;> rfl
+  split
+  · rfl
+  · split
+    · rfl
+    · split <;> rfl
 
 theorem openWalk_log : ∀ (n : Nat) (s : St), s.cur = none → n = s.argc - s.idx →
     ∃ d, (openWalk n s).2.ilog = d.reverse ++ s.ilog ∧
@@ -181,6 +185,8 @@ theorem logInv_stable (full : List LogEntry) : Stable (LogInv full) where
   argv s i v _ := logInv_edited rfl
   argc s n _ := logInv_edited rfl
   close s f h := logInv_of_same h rfl rfl rfl
+  fname s v _ := logInv_edited rfl
+  fsep s v h := logInv_of_same h rfl rfl rfl
   enter s h := logInv_of_same h rfl rfl rfl
   leave s h := logInv_of_same h rfl rfl rfl
   take s r s1 h hn := by
